@@ -1,2 +1,123 @@
+"""C01 — X-tie for DFContainer: random place trees and set/get scripts, real DFContainer on a real
+hugr Dfg (impl_dfc.py) vs ModelDfc.run_script (vm_compute); the invariant of dfc_linear is also
+evaluated on the real container after every successful operation (specification side)."""
+import json
+
+import vlib
+
+HEADER = ("From Coq Require Import ZArith List Bool.\nFrom V.C01 Require Import ModelDfc ModelObs.\n"
+          "Import ListNotations.\n")
+
+
+def gen_tree(r, depth):
+    if depth == 0 or r.random() < 0.45:
+        return r.choice(["q", "q", "i", "i", "a"])
+    return [r.choice(["tuple", "struct"]), [gen_tree(r, depth - 1) for _ in range(r.randint(0, 3) if r.random() < 0.1 else r.randint(1, 3))]]
+
+
+def sub_pids(tree, pre):
+    out = [pre]
+    if isinstance(tree, list):
+        for i, k in enumerate(tree[1]):
+            out += sub_pids(k, pre + [i])
+    return out
+
+
+def gen_case(r):
+    env = [gen_tree(r, r.randint(0, 3)) for _ in range(r.randint(1, 3))]
+    ret = [isinstance(t, list) and r.random() < 0.12 for t in env]
+    pids = []
+    for i, t in enumerate(env):
+        pids += [[i]] if ret[i] else sub_pids(t, [i])
+    script = []
+    # mostly sensible: initialise some roots, then random accesses; sometimes garbage
+    for i in range(len(env)):
+        if r.random() < 0.8:
+            script.append(["set", [i]])
+    for _ in range(r.randint(1, 8)):
+        p = r.choice(pids)
+        if r.random() < 0.04:
+            p = p + [r.randint(0, 3)]
+        script.append([r.choice(["get", "get", "set"]), p])
+    return {"env": env, "ret": ret, "script": script}
+
+
+def flags(tree):
+    """(copyable, droppable) of a type tree."""
+    if tree == "q":
+        return False, False
+    if tree == "i":
+        return True, True
+    if tree == "a":
+        return False, True
+    fs = [flags(k) for k in tree[1]]
+    return all(c for c, _ in fs), all(d for _, d in fs)
+
+
+def coq_ty(tree, as_leaf=False):
+    if not isinstance(tree, list) or as_leaf:
+        c, d = flags(tree)
+        return f"(TLeaf {'true' if c else 'false'} {'true' if d else 'false'})"
+    return "(TNode [" + "; ".join(coq_ty(k) for k in tree[1]) + "])"
+
+
+def coq_case(case):
+    env = "[" + "; ".join(coq_ty(t, as_leaf=rt) for t, rt in zip(case["env"], case["ret"])) + "]"
+    sc = "[" + "; ".join(("SSet " if k == "set" else "SGet ") + "[" + "; ".join(f"{i}%nat" for i in p) + "]" for k, p in case["script"]) + "]"
+    return f"Eval vm_compute in (observe_dfc {env} {sc})."
+
+
 def run(ctx, model_ok):
-    return {"scripts": 0, "note": "not yet built"}
+    r = vlib.rng(ctx.seed, "C01/dfc")
+    n = 300 if ctx.quick else 4000
+    cases = [json.loads(f.read_text()) for f in sorted((ctx.dir / "corpus").glob("dfc_*.json"))]
+    cases += [gen_case(r) for _ in range(n)]
+    cov = {"scripts": len(cases), "disagreements": 0, "invariant_violations_on_real_container": 0}
+    try:
+        impl = json.loads(ctx.impl("impl_dfc.py", {"cases": cases}))
+    except RuntimeError as e:
+        ctx.report("dfc-harness", "correspondence", "impl_dfc.py could not run", {"error": str(e)[-1500:]}, found_input=False)
+        return cov
+    full = packs = 0
+    for case, res in zip(cases, impl):
+        if "harness_error" in res:
+            ctx.report("dfc-harness:" + json.dumps(case), "correspondence", "impl_dfc.py failed on a case",
+                       {"case": case, "error": res["harness_error"], "tb": res.get("tb")}, found_input=False)
+            return cov
+        full += res["steps"] == len(case["script"])
+        packs += any(o[0] == 0 for o in res["log"])
+        if not res["inv"]:
+            cov["invariant_violations_on_real_container"] += 1
+            if cov["invariant_violations_on_real_container"] <= 2:
+                ctx.report("dfc-inv:" + json.dumps(case), "counterexample",
+                           "DFContainer holds a linear place both by its own entry and by a packed ancestor (dfc_linear)",
+                           {"case": case, "observed": res, "expected": "no entry for a linear place below another entry",
+                            "replay": "echo '{\"cases\": [<case>]}' | python props/C01/impl_dfc.py (PYTHONPATH as in vlib.impl_env)"})
+    cov["scripts_running_to_the_end"] = full
+    cov["scripts_with_a_MakeTuple"] = packs
+    if not model_ok:
+        return cov
+    per = 250
+    files = {f"dfc{k}": HEADER + "\n".join(coq_case(c) for c in cases[k * per:(k + 1) * per])
+             for k in range((len(cases) + per - 1) // per)}
+    try:
+        outs = ctx.coq_eval_many(files)
+        vals = []
+        for k in range(len(files)):
+            vals += vlib.parse_coq_values(outs[f"dfc{k}"])
+        if len(vals) != len(cases):
+            raise RuntimeError(f"parsed {len(vals)} of {len(cases)} values")
+    except RuntimeError as e:
+        ctx.report("dfc-model-eval", "correspondence", "ModelObs.observe_dfc could not be evaluated", {"error": str(e)[-1500:]}, found_input=False)
+        return cov
+    for case, res, m in zip(cases, impl, vals):
+        hdr, mlocals, mlog = m
+        exp = [[[res["steps"], 1 if res["inv"] else 0, hdr[0][2]]], sorted(res["locals"]), res["log"]]
+        got = [hdr, sorted(mlocals), mlog]
+        if exp != got:
+            cov["disagreements"] += 1
+            if cov["disagreements"] <= 2:
+                ctx.report("dfc-model:" + json.dumps(case), "correspondence", "DFContainer: model (ModelDfc) vs implementation",
+                           {"case": case, "implementation": exp, "model": got, "impl_error": res["error"],
+                            "encoding": "[[steps_ok, invariant, env_ok]], locals as [wire, root, selectors...], log as [0=MakeTuple|1=UnpackTuple, wire, wires...]"})
+    return cov
